@@ -2084,3 +2084,213 @@ func cellMakeOutsideLoop(fv *ssa.FreeVar, join ssa.CallInstruction) bool {
 	})
 	return res
 }
+
+// R15.6 [C15]
+func ruleListKindPerLevel(c *eng.Ctx) {
+	const R = "R15.6-LIST-KIND-PER-LEVEL"
+	c.Rule(R, "in the docx and odt list-item writers the choice between a numbered and a bullet marker is made from the item's list identity AND its level (the kind is defined per level inside one list definition): the deciding condition depends on the level field and on no memo of the answer looked up without the level", 2, 0)
+	for _, fn := range c.P.ModuleFuncs() {
+		if fn.Pkg == nil || fn.Parent() != nil {
+			continue
+		}
+		sp := eng.ShortPath(fn.Pkg.Pkg.Path())
+		if sp != "docx" && sp != "odt" {
+			continue
+		}
+		// the bullet marker write
+		var bullets []ssa.CallInstruction
+		for _, ci := range eng.Calls(fn, false, func(nm string, _ ssa.CallInstruction) bool { return strings.HasSuffix(nm, ").WriteString") }) {
+			args := ci.Common().Args
+			if s, ok := eng.ConstString(args[len(args)-1]); ok && (s == "- " || s == "* ") {
+				bullets = append(bullets, ci)
+			}
+		}
+		if len(bullets) == 0 {
+			continue
+		}
+		cluster := eng.Cluster(fn, 1)
+		for i, b := range bullets {
+			// the innermost branch that decides between this write and a numbered marker
+			var dec *ssa.If
+			for d := b.Block().Idom(); d != nil; d = d.Idom() {
+				if iff, ok := lastIf(d); ok {
+					// the other side reaches a formatted number
+					other := false
+					for _, s := range d.Succs {
+						if s == b.Block() || s.Dominates(b.Block()) {
+							continue
+						}
+						for blk := range eng.ReachableBlocks([]*ssa.BasicBlock{s}, func(x *ssa.BasicBlock) bool { return x == b.Block() }) {
+							for _, in := range blk.Instrs {
+								if call, ok := in.(*ssa.Call); ok && strings.HasSuffix(eng.CalleeName(call), "fmt.Sprintf") {
+									if f, ok := eng.ConstString(call.Call.Args[0]); ok && strings.Contains(f, "%d") {
+										other = true
+									}
+								}
+							}
+						}
+					}
+					if other {
+						dec = iff
+						break
+					}
+				}
+			}
+			if dec == nil {
+				continue
+			}
+			key := fmt.Sprintf("%s#kind%d", eng.FuncName(fn), i+1)
+			hasLevel := func(v ssa.Value) bool {
+				for w := range eng.SliceInter(v, func(*ssa.Call) bool { return true }, cluster) {
+					if fr, ok := eng.AsField(w); ok && (fr.Field == "ListLevel" || fr.Field == "Level") {
+						return true
+					}
+				}
+				return false
+			}
+			usesLevel := hasLevel(dec.Cond)
+			cached := token.NoPos
+			for w := range eng.SliceInter(dec.Cond, func(*ssa.Call) bool { return true }, cluster) {
+				if lk, ok := w.(*ssa.Lookup); ok {
+					// a memo of the decision itself (a map to bool / a small scalar) keyed without the level;
+					// tables of definitions (map to struct, to per-level map) are how the level is looked up
+					if mt, isMap := lk.X.Type().Underlying().(*types.Map); isMap && !hasLevel(lk.Index) {
+						if _, isBasic := mt.Elem().Underlying().(*types.Basic); isBasic {
+							cached = lk.Pos()
+						}
+					}
+				}
+			}
+			c.Check(usesLevel && cached == token.NoPos, R, key, dec.Cond.Pos(), "marker kind decided from list identity and level",
+				"the numbered/bullet decision does not depend on the item's level, or is read from a table keyed without it: a bullet sub-list under a numbered list gets the parent's marker kind")
+		}
+	}
+}
+
+// R15.7 [C15]
+func ruleIndentFromOwnLevel(c *eng.Ctx) {
+	const R = "R15.7-INDENT-FROM-OWN-LEVEL"
+	c.Rule(R, "the indentation written in front of a list item is computed from that item's own level: it is never a string of blanks kept from one item to the next (widened and narrowed as the level changes), which goes stale on any path that forgets to adjust it", 4, 1)
+	isBlank := func(s string) bool { return s != "" && strings.Trim(s, " \t") == "" }
+	for _, fn := range c.P.ModuleFuncs() {
+		if fn.Blocks == nil {
+			continue
+		}
+		usesLevel := false
+		eng.Instrs(fn, false, func(in ssa.Instruction) {
+			if fa, ok := in.(*ssa.FieldAddr); ok {
+				if fr, ok := eng.AsField(fa); ok && (fr.Field == "Level" || fr.Field == "ListLevel") {
+					usesLevel = true
+				}
+			}
+			if f, ok := in.(*ssa.Field); ok {
+				if fr, ok := eng.AsField(f); ok && (fr.Field == "Level" || fr.Field == "ListLevel") {
+					usesLevel = true
+				}
+			}
+		})
+		if !usesLevel {
+			continue
+		}
+		n := 0
+		for _, ci := range eng.Calls(fn, false, func(nm string, _ ssa.CallInstruction) bool { return strings.HasSuffix(nm, ").WriteString") }) {
+			args := ci.Common().Args
+			arg := args[len(args)-1]
+			if s, ok := eng.ConstString(arg); ok {
+				if isBlank(s) && eng.InLoop(ci.Block()) {
+					n++
+					c.Ok(R, fmt.Sprintf("%s#indent%d", eng.FuncName(fn), n), ci.Pos(), "constant blanks written per level")
+				}
+				continue
+			}
+			thruRepeat := func(call *ssa.Call) bool { return eng.CalleeName(call) == "strings.Repeat" }
+			// a blank string that is loop-carried
+			carried := false
+			blank := false
+			for w := range eng.Slice(arg, thruRepeat) {
+				if ph, ok := w.(*ssa.Phi); ok && isLoopCarried(ph) && isStringValue(ph) {
+					for x := range eng.Slice(ph, thruRepeat) {
+						if s, ok := eng.ConstString(x); ok && isBlank(s) {
+							carried = true
+						}
+					}
+				}
+				if s, ok := eng.ConstString(w); ok && isBlank(s) {
+					blank = true
+				}
+			}
+			if !blank {
+				continue
+			}
+			n++
+			c.Check(!carried, R, fmt.Sprintf("%s#indent%d", eng.FuncName(fn), n), ci.Pos(), "indentation computed from the item's level",
+				"the indentation is a string of blanks carried from one item to the next: an item that returns to a shallower level on a path that does not narrow it keeps the deeper indentation")
+		}
+	}
+}
+
+func isStringValue(v ssa.Value) bool {
+	b, ok := v.Type().Underlying().(*types.Basic)
+	return ok && b.Info()&types.IsString != 0
+}
+
+// R15.8 [C15, C18]
+func ruleSlideTablesNotSkipped(c *eng.Ctx) {
+	const R = "R15.8-SLIDE-TABLES-NOT-SKIPPED"
+	c.Rule(R, "in the pptx writers the rendering of a slide's tables is not placed under a test of the slide's other content (title, text blocks, notes) that leaves the tables out: a slide whose only content is a table would be skipped with all its cell text", 2, 0)
+	n := 0
+	for _, fn := range c.P.ModuleFuncs() {
+		if fn.Pkg == nil || eng.ShortPath(fn.Pkg.Pkg.Path()) != "pptx" || fn.Parent() != nil {
+			continue
+		}
+		cluster := eng.Cluster(fn, 1)
+		for _, ci := range eng.Calls(fn, false, func(nm string, _ ssa.CallInstruction) bool {
+			return nm == "pptx.(*Table).ToMarkdown" || nm == "pptx.(*Table).ToText" || nm == "pptx.Table.ToMarkdown"
+		}) {
+			if !eng.InLoop(ci.Block()) {
+				continue
+			}
+			n++
+			key := fmt.Sprintf("%s#tables%d", eng.FuncName(fn), n)
+			bad := token.NoPos
+			for d := ci.Block().Idom(); d != nil; d = d.Idom() {
+				iff, ok := lastIf(d)
+				if !ok || !eng.InLoop(d) {
+					continue
+				}
+				// d decides whether the tables are rendered in this trip only if one of its branches cannot
+				// reach them without starting the next trip of the loop that contains both
+				var hdr *ssa.BasicBlock
+				for _, h := range enclosingLoopHeaders(ci.Block()) {
+					if h.Dominates(d) {
+						hdr = h
+					}
+				}
+				reach := 0
+				for _, sx := range d.Succs {
+					if sx == ci.Block() || eng.ReachableBlocks([]*ssa.BasicBlock{sx}, func(x *ssa.BasicBlock) bool { return x == hdr })[ci.Block()] {
+						reach++
+					}
+				}
+				if reach != 1 {
+					continue
+				}
+				other, tables := false, false
+				for w := range eng.SliceInter(iff.Cond, func(*ssa.Call) bool { return true }, cluster) {
+					if fr, ok := eng.AsField(w); ok && strings.HasSuffix(fr.Struct, "pptx.Slide") {
+						if fr.Field == "Tables" {
+							tables = true
+						} else if fr.Field == "Title" || fr.Field == "Content" || fr.Field == "Notes" {
+							other = true
+						}
+					}
+				}
+				if other && !tables {
+					bad = iff.Cond.Pos()
+				}
+			}
+			c.Check(bad == token.NoPos, R, key, ci.Pos(), "tables rendered regardless of the slide's other content",
+				"the tables of a slide are rendered only under a test of its other content ("+c.P.Pos(bad)+") that does not look at the tables: a table-only slide loses all its cell text")
+		}
+	}
+}
